@@ -251,33 +251,6 @@ def f_window_without_arrange_after_arrange_verb(prog, idxs, ctx):
     return False
 
 
-def f_union_mixed_types(prog, idxs, ctx):
-    """A union whose column pairs differ in type (the verb accepts compatible types)."""
-    env = (ctx or {}).get("ref")
-    real = (ctx or {}).get("real")
-    for i in idxs:
-        st = prog["steps"][i]
-        if st["verb"] != "union":
-            continue
-        if real is not None and st["in"] in real and st["right"] in real:
-            # concrete static types of the real tables (Int16 vs Int64 are the same REF family)
-            try:
-                lt = {c.name: str(c.dtype()).replace("const ", "") for c in real[st["in"]]}
-                rt_ = {c.name: str(c.dtype()).replace("const ", "") for c in real[st["right"]]}
-                if any(lt[n] != rt_.get(n, lt[n]) for n in lt):
-                    return True
-            except Exception:
-                pass
-        if env is None or st["in"] not in env or st["right"] not in env:
-            return True  # cannot tell: conservatively assume the feature (only used to excuse)
-        lt, rt = env[st["in"]], env[st["right"]]
-        rm = rt.name_to_id()
-        for n, cid in lt.vis:
-            if n in rm and lt.cols[cid].fam != rt.cols[rm[n]].fam:
-                return True
-    return False
-
-
 def f_clip_on_non_numeric(prog, idxs, ctx):
     for i in idxs:
         for n in walk(prog["steps"][i]):
@@ -396,7 +369,6 @@ FEATURES = {
     "sqlite_date_to_datetime_compared": f_sqlite_date_to_datetime_compared,
     "group_by_constant_column": f_group_by_constant_column,
     "clip_on_non_numeric": f_clip_on_non_numeric,
-    "union_mixed_types": f_union_mixed_types,
     "agg_or_window_over_constant": f_agg_or_window_over_constant,
     "ungrouped_summarize_aggregates_dropped": f_ungrouped_summarize_aggregates_dropped,
     "outer_join_nonstrict_computed_column": f_outer_join_nonstrict_computed_column,
